@@ -930,6 +930,10 @@ fn run_case(out: &mut Out, case: &Case) {
                 }
             }
         }
+        if op.contains("gap=w") {
+            // did the schedule open the window (removal while the responder awaited SigmaFinished)?
+            out.stat(if v.split_whitespace().any(|w| w == "gapped") { "gap_w_hit" } else { "gap_w_missed" }, 1);
+        }
         out.op(op, &v);
     }
 }
@@ -1273,6 +1277,26 @@ pub fn gen(a: &Args) -> String {
             }
         }
         // afterwards: the fabric comes back under the re-used index, a FULL handshake must follow, then a resumed one
+        ops.push(format!("addfab root={} dnoc={} dicac={}", c.0.text(), d.2.text(), o(&d.1)));
+        ops.push("again".to_string());
+        ops.push("again".to_string());
+        emit(&mut out, ops);
+    }
+
+    // ---- 2d'. the same state changes while the responder is suspended in `recv_fetch`, waiting for SigmaFinished with the
+    // reserved session already loaded (`gap=w`; finding C07-resume-in-flight-record-resurrected): the first SigmaFinished is
+    // lost, the retransmitted Sigma2_Resume is acknowledged on its own, the retransmitted SigmaFinished arrives `l<ms>` later
+    let n_w = if a.thorough { 16 } else { 4 };
+    for i in 0..n_w {
+        let mut cr = r.fork();
+        let (_, c, d) = base(&mut cr, false);
+        let o = |x: &Option<Rec>| x.as_ref().map(|r| r.text()).unwrap_or_else(|| "-".into());
+        out.stat("kind_remove_while_awaiting_sigmafinished", 1);
+        let mut ops = vec![hs_line(&c.0, &c, &d, None, "")];
+        if i % 2 == 1 {
+            ops.push("again".to_string());
+        }
+        ops.push(format!("again sched=d.d.x.d.d.l{} gap=w", cr.range(20, 3000)));
         ops.push(format!("addfab root={} dnoc={} dicac={}", c.0.text(), d.2.text(), o(&d.1)));
         ops.push("again".to_string());
         ops.push("again".to_string());
